@@ -82,13 +82,13 @@ func Run(c *vf.Check) {
 		kind := kind
 		jobs = append(jobs, func() { runCross(c, []string{"kilic." + kind, "circl." + kind, "gnark." + kind}, lvl, true) })
 	}
-	jobs = append(jobs, func() { runPairBLS(c) }, func() { runStdlib(c) })
+	jobs = append(jobs, func() { runPairBLS(c) }, func() { runStdlib(c) }, func() { runClampedKeys(c) }, func() { runPickSmallOrder(c) }, func() { runCustomDSTHash(c) })
 	for _, v := range []string{"generic", "constantTime"} {
 		v := v
 		jobs = append(jobs, func() { runVariant(c, v) })
 	}
 	vf.Parallel(len(jobs), func(i int) { jobs[i]() })
-	c.Finish("engine S in lock-step over a product of implementations: the straight-line programs of depth <= 2 over {Add, Sub, Neg, Mul(s in S(q)), Mul(s,nil), Base, Null, Hash(m)} on the seed pool {O, B, s*B} are executed on every implementation of the same mathematical object and every resulting encoding is compared: Ed25519 constant-time, Ed25519 with AllowVarTime, edwards25519vartime pairwise and each against an affine math/big Edwards model (also P-256, bn256.G1, bn254.G1 against an affine Weierstrass model); kilic, circl, gnark pairwise on G1, G2, GT, scalars, hash-to-curve outputs, pairings e(aB1,bB2) for a,b in a 6-element core, and BLS signatures on both groups; Ed25519 base multiplication against crypto/ed25519 key derivation for 24 seeds. "+
+	c.Finish("engine S in lock-step over a product of implementations: the straight-line programs of depth <= 2 over {Add, Sub, Neg, Mul(s in S(q)), Mul(s,nil), Base, Null, Hash(m)} on the seed pool {O, B, s*B} are executed on every implementation of the same mathematical object and every resulting encoding is compared: Ed25519 constant-time, Ed25519 with AllowVarTime, edwards25519vartime pairwise and each against an affine math/big Edwards model (also P-256, bn256.G1, bn254.G1 against an affine Weierstrass model); kilic, circl, gnark pairwise on G1, G2, GT, scalars, hash-to-curve outputs, pairings e(aB1,bB2) for a,b in a 6-element core, and BLS signatures on both groups; Ed25519 base multiplication against crypto/ed25519 key derivation for 24 seeds; the clamped, unreduced private scalars of the key generator (64 seeds) as multipliers of the generator and of three explicit points, constant-time = AllowVarTime = model; Pick on the three Ed25519 implementations under streams whose first usable candidate encodes a small-order point; hash-to-curve under caller-supplied tags, kilic (hashing on fresh points, clones, clones of clones, Set results) = circl = gnark. "+
 		"Build variants: the same transcript program (all groups of the registry, pairings, hashes, BLS signatures) is produced by the binaries built with no tag, -tags generic and -tags constantTime and compared line by line on the lines both configurations contain. "+
 		"non-trivial = expressions with a scalar outside {0,1}; distinct by (family, expression)",
 		[]string{"base points of the BN curves are the conventional (1,-2)/(1,2); Ed25519 base y=4/5", "agreement of decoders on hostile bytes is C04's subject, not demanded here", "arm64 assembly is not present in this sandbox"},
